@@ -767,8 +767,8 @@ func runC05PoolFull(r *mon.Run, stream uint64) {
 	b.EphFloor = 1 << 30 // confirmed inputs only: the transactions must be independent
 	maxW := tip.L.State.MaxBlockWeight() * 10
 	data := make([]byte, 1_800_000)
-	for i := 0; i < 30; i++ {
-		// one big, independent transaction per confirmed output
+	for i := 0; i < 44; i++ {
+		// one (mostly big) independent transaction per confirmed output
 		var txn types.V2Transaction
 		ok := false
 		for _, a := range env.Actors {
@@ -790,7 +790,16 @@ func runC05PoolFull(r *mon.Run, stream uint64) {
 		txn.SiacoinOutputs[0].Value = txn.SiacoinOutputs[0].Value.Sub(fee)
 		txn.MinerFee = txn.MinerFee.Add(fee)
 		data[0], data[1] = byte(i), byte(stream)
-		txn.ArbitraryData = append([]byte(nil), data...)
+		// different weights: ranking by fee per weight unit and by absolute fee
+		// (or by fee times weight) then disagree
+		size := len(data)
+		switch rng.IntN(5) {
+		case 0:
+			size = 100 + rng.IntN(2000)
+		case 1, 2:
+			size = 900_000 + rng.IntN(600_000)
+		}
+		txn.ArbitraryData = append([]byte(nil), data[:size]...)
 		b.ResignV2(&txn)
 		w := tip.L.State.V2TransactionWeight(txn)
 		if _, err := cm.AddV2PoolTransactions(tip.L.State.Index, []types.V2Transaction{txn}); err != nil {
